@@ -44,6 +44,8 @@ SINGLE_ONLY = ["qp.pow(qp.Identity(0), 0)", "qp.pow(qp.PhaseShift(A[3], 0), 0.5)
                "qp.pow(qp.T(0), 7)", "qp.adjoint(qp.adjoint(qp.RX(A[0], 1)))", "qp.ctrl(qp.adjoint(qp.T(2)), control=[0, 1])",
                # nested work-wire allocation: Lemma 7.11 takes one wire, the inner MultiControlledX must then respect the rest of the budget
                "qp.ctrl(qp.IsingXX(A[2], [3, 4]), control=[0, 1, 2])"]
+NESTED = ["qp.adjoint(qp.pow(qp.Hadamard(0), 5))", "qp.adjoint(qp.pow(qp.X(1), 3))", "qp.adjoint(qp.pow(qp.S(0), 3))",
+          "qp.adjoint(qp.pow(qp.SX(1), 7))", "qp.adjoint(qp.pow(qp.T(1), 6))", "qp.pow(qp.adjoint(qp.S(0)), 3)"]
 SUB12 = [0, 2, 4, 5, 7, 9, 12, 15, 17, 18, 20, 23]
 SUB8 = [0, 2, 4, 7, 12, 15, 17, 23]
 
@@ -271,6 +273,13 @@ def cases(tier):
             for g in g2:
                 out.append({"ops": [a, b], "gs": g, "graph": 0, "nww": 0, "alt": "", "stop": 0})
                 out.append({"ops": [a, b], "gs": g, "graph": 1, "nww": 1, "alt": "", "stop": 0})
+    # axis D: nested symbolic operators of gates with DIFFERENT power periods in one word (period 2: X, H; 4: S, SX; 8: T),
+    # so that anything keyed or cached per rule name / per wrapper kind instead of per operator is exposed by the second letter
+    for a in NESTED:
+        for b in NESTED:
+            for g in ["ROTATIONS_PLUS_CNOT", "CLIFFORD_T_PLUS_RZ"]:
+                out.append({"ops": [a, b], "gs": g, "graph": 0, "nww": 0, "alt": "", "stop": 0})
+                out.append({"ops": [a, b], "gs": g, "graph": 1, "nww": 0, "alt": "", "stop": 0})
     # axis C: words of length 3 (thorough)
     if not quick:
         s8 = [LETTERS[i] for i in SUB12]
